@@ -36,6 +36,16 @@ type Spec struct {
 	Lens    [][]int `json:"lens,omitempty"`    // bytes: per stream, line-length class of each entry
 	SameTs  bool    `json:"same_ts,omitempty"` // all entries of a stream share one timestamp (and so may be identical)
 	Seq     [][]int `json:"seq,omitempty"`     // fields: per record, the value index of every field dimension (last: line variant)
+	LineLen int     `json:"line_len,omitempty"` // count: every log line is unique and this long (bodies that cross 1 MiB by repetition)
+	// special: one label set that contains a name the code treats specially (collected from the decoder sources) at
+	// position Pos (0 first, 1 middle, 2 last), said in a shape that makes the decoder call the row builder several
+	// times for it: Rep occurrences of the stream/series/line, N entries each (Influx: N numeric fields on the line,
+	// 0 = a log line), Pre points of another series in front (remote-write: moves the cross-series flush counter)
+	Special string `json:"special,omitempty"`
+	Pos     int    `json:"pos,omitempty"`
+	Rep     int    `json:"rep,omitempty"`
+	N       int    `json:"n,omitempty"`
+	Pre     int    `json:"pre,omitempty"`
 }
 
 // ---------------------------------------------------------------------------------------------------------
@@ -265,6 +275,10 @@ func Build(s Spec) (*ir.Proto, []ir.Stream, error) {
 	if p == nil {
 		return nil, nil, fmt.Errorf("unknown protocol %q", s.Proto)
 	}
+	if s.Space == "special" {
+		streams, err := buildSpecial(s, p)
+		return p, streams, err
+	}
 	if s.Space == "fields" {
 		streams, err := buildFields(s, p)
 		return p, streams, err
@@ -310,6 +324,9 @@ func Build(s Spec) (*ir.Proto, []ir.Stream, error) {
 					v.value = float64(k%977) + v.value
 				} else if v.line != "" {
 					v.line = fmt.Sprintf("%d", k%7)
+					if s.LineLen > 0 {
+						v.line = fmt.Sprintf("%08d-", k) + strings.Repeat("u", s.LineLen-9)
+					}
 				}
 				str.Entries = append(str.Entries, mkEntry(v, ts()))
 			}
@@ -320,7 +337,7 @@ func Build(s Spec) (*ir.Proto, []ir.Stream, error) {
 				case 3:
 					line = "abc"
 				case bigLine:
-					line = bigLineText
+					line = fmt.Sprintf("%04d", k) + bigLineText[4:] // unique, so that an overwritten chunk is visible by value
 				}
 				str.Entries = append(str.Entries, ir.Entry{TsNs: ts(), Line: line, Type: ir.TypeLog})
 			}
@@ -346,7 +363,7 @@ type verdict struct {
 
 var fpref = ir.NewFPRef()
 
-func expected(p *ir.Proto, streams []ir.Stream, carrySourceType bool) ([]ir.Row, error) {
+func expected(p *ir.Proto, streams []ir.Stream, carrySourceType bool, ttl uint16) ([]ir.Row, error) {
 	var rows []ir.Row
 	carried := ""
 	for _, s := range streams {
@@ -368,7 +385,7 @@ func expected(p *ir.Proto, streams []ir.Stream, carrySourceType bool) ([]ir.Row,
 		if len(s.Entries) == 0 {
 			continue
 		}
-		fp, err := fpref.FP(p, labels)
+		fp, err := fpref.FPWith(p, labels, ttl)
 		if err != nil {
 			return nil, err
 		}
@@ -401,6 +418,9 @@ func d4TypeCount(streams []ir.Stream) int {
 func judge(s Spec) verdict {
 	p, streams, err := Build(s)
 	if err != nil {
+		if strings.Contains(err.Error(), ir.ErrInexpressible.Error()) {
+			return verdict{skipped: true}
+		}
 		ev.Fatal("bad spec %+v: %v", s, err)
 	}
 	body, err := p.Render(streams, s.Opt)
@@ -412,6 +432,7 @@ func judge(s Spec) verdict {
 	}
 	h := fnv.New64a()
 	h.Write([]byte(p.Name))
+	h.Write([]byte{byte(s.Opt.TTLDays), byte(s.Opt.TTLDays >> 8)}) // the X-Ttl-Days header is part of the request
 	h.Write(body)
 	v := verdict{bodyHash: h.Sum64()}
 	out := p.Parse(body, s.Opt, nil)
@@ -441,6 +462,18 @@ func judge(s Spec) verdict {
 		v.what = fmt.Sprintf("%s: well-formed body answered with 500: %s", p.Name, trunc(msg, 120))
 		return v
 	}
+	if len(out.Mutated) > 0 {
+		v.outcome = p.Name + ":chunk_mutated"
+		v.class = "chunk_mutated_after_handover:" + p.Name
+		v.what = fmt.Sprintf("%s: %s (%d chunks)", p.Name, out.Mutated[0], len(out.Chunks))
+		return v
+	}
+	if out.Shared != "" {
+		v.outcome = p.Name + ":chunks_share_array"
+		v.class = "chunks_share_backing_array:" + p.Name
+		v.what = fmt.Sprintf("%s: %s (%d chunks): the earlier chunk is overwritten while its consumer still holds it", p.Name, out.Shared, len(out.Chunks))
+		return v
+	}
 	if len(out.Problems) > 0 {
 		v.outcome = p.Name + ":wrong_field"
 		v.class = "chunk_in_wrong_response_field:" + p.Name
@@ -455,7 +488,7 @@ func judge(s Spec) verdict {
 		}
 		v.what = fmt.Sprintf("%s: per-row arrays of unequal length: %s", p.Name, nonRect)
 	}
-	want, err := expected(p, streams, false)
+	want, err := expected(p, streams, false, s.Opt.TTLDays)
 	if err != nil {
 		if strings.Contains(err.Error(), ir.ErrInexpressible.Error()) {
 			ev.Fatal("reference body for %+v cannot be rendered: %v", s, err)
@@ -478,7 +511,7 @@ func judge(s Spec) verdict {
 	v.outcome = fmt.Sprintf("%s:rows_differ:%dchunks", p.Name, len(out.Chunks))
 	cls := classifyDiff(missing, extra)
 	if p == ir.DatadogLogs && cls == "entry_attributed_to_other_stream" {
-		if w2, err := expected(p, streams, true); err == nil {
+		if w2, err := expected(p, streams, true, s.Opt.TTLDays); err == nil {
 			if d2, _, _ := ir.Diff(w2, got); d2 == "" {
 				cls = "datadog_logs_source_type_carried_over"
 			}
@@ -532,6 +565,89 @@ func classifyDiff(missing, extra []ir.Row) string {
 	}
 	return "rows_differ"
 }
+
+// specialBase: the plain labels around the special one, in the protocol's vocabulary (nil: the protocol cannot carry a
+// label of an arbitrary name).
+func specialBase(p *ir.Proto) (base, other []ir.Label) {
+	switch p {
+	case ir.LokiJSON, ir.LokiProto, ir.OTLPLogs:
+		return L("a", "x", "b", "y"), L("a", "z")
+	case ir.RemoteWrite:
+		return L("a", "x", "b", "y"), L("__name__", "o", "a", "z")
+	case ir.Influx:
+		return L("measurement", "m", "a", "x", "b", "y"), L("measurement", "o")
+	case ir.DatadogLogs:
+		return L("type", "datadog", "env", "prod", "ver", "v1"), L("type", "datadog", "env", "dev")
+	case ir.DatadogSeries:
+		return L("__name__", "m", "resource1_a", "x"), L("__name__", "o")
+	}
+	return nil, nil
+}
+
+func buildSpecial(s Spec, p *ir.Proto) ([]ir.Stream, error) {
+	base, other := specialBase(p)
+	labels := append([]ir.Label{}, base...)
+	if s.Special != "" {
+		for _, l := range base {
+			if l.Name == s.Special {
+				return nil, ir.ErrInexpressible // already a structural label of this protocol's rendering
+			}
+		}
+		if p == ir.DatadogSeries || (p == ir.Influx && s.Special == "__name__") {
+			return nil, ir.ErrInexpressible
+		}
+		val := "sv"
+		if s.Special == "__ttl_days__" {
+			val = "7"
+		}
+		lo := 0
+		if p == ir.Influx || p == ir.DatadogLogs {
+			lo = 1 // the first label is the measurement / the endpoint's type label
+		}
+		at := map[int]int{0: lo, 1: (lo + len(labels) + 1) / 2, 2: len(labels)}[s.Pos]
+		labels = append(labels[:at:at], append([]ir.Label{{Name: s.Special, Value: val}}, labels[at:]...)...)
+	}
+	st := step(p, s.Opt)
+	k := int64(0)
+	ts := func() int64 { k++; return T0 + k*st }
+	metric := !strings.Contains(p.Kinds, "l")
+	entry := func(i int) ir.Entry {
+		if metric {
+			return ir.Entry{TsNs: ts(), Value: float64(i%977) + 0.5, Type: ir.TypeMetric}
+		}
+		return ir.Entry{TsNs: ts(), Line: fmt.Sprintf("line %d", i), Type: ir.TypeLog}
+	}
+	var streams []ir.Stream
+	if s.Pre > 0 {
+		o := ir.Stream{Labels: other}
+		for i := 0; i < s.Pre; i++ {
+			o.Entries = append(o.Entries, entry(i))
+		}
+		streams = append(streams, o)
+	}
+	for r := 0; r < s.Rep; r++ {
+		if p == ir.Influx && s.N > 0 { // one line with N numeric fields = N streams that differ in __name__, same instant
+			t := ts()
+			for f := 0; f < s.N; f++ {
+				l := append(append([]ir.Label{}, labels...), ir.Label{Name: "__name__", Value: fmt.Sprintf("f%d", f+1)})
+				streams = append(streams, ir.Stream{Labels: l, Entries: []ir.Entry{{TsNs: t, Value: float64(f) + 1.5, Type: ir.TypeMetric}}})
+			}
+			continue
+		}
+		str := ir.Stream{Labels: labels}
+		n := s.N
+		if p == ir.Influx {
+			n = 1
+		}
+		for i := 0; i < n; i++ {
+			str.Entries = append(str.Entries, entry(r*n+i))
+		}
+		streams = append(streams, str)
+	}
+	return streams, nil
+}
+
+var specialLabelNames, specialContexts []string
 
 func trunc(s string, n int) string {
 	if len(s) > n {
@@ -721,6 +837,79 @@ func enumerate(thorough bool, emit func(Spec)) map[string]int64 {
 				}
 			}
 		}
+		// ---- special space: names the code treats specially x position x shapes with several row-builder calls ----
+		{
+			ns := []int{1, 2, 3}
+			pres := []int{0}
+			reps := []int{1, 2, 3}
+			if p == ir.RemoteWrite {
+				ns = []int{1, 999, 1000, 1001, 1500, 2001}
+				pres = []int{0, 1, 500}
+				if !thorough {
+					reps = []int{1, 2}
+				}
+			}
+			if p == ir.Influx {
+				ns = []int{0, 1, 2, 3}
+			}
+			o := ir.Opt{}
+			if p == ir.Influx {
+				o.MergeFields = true
+			}
+			names := append([]string{""}, specialLabelNames...)
+			for _, name := range names {
+				for pos := 0; pos < 3; pos++ {
+					if name == "" && pos > 0 {
+						continue
+					}
+					for _, ttl := range []uint16{0, 30} {
+						for _, rep := range reps {
+							for _, n := range ns {
+								for _, pre := range pres {
+									oo := o
+									oo.TTLDays = ttl
+									send("special_names_x_position_x_multicall", Spec{Space: "special", Proto: p.Name, Opt: oo, Special: name, Pos: pos, Rep: rep, N: n, Pre: pre})
+									if p == ir.LokiJSON {
+										oo.Layout = 1
+										send("special_names_x_position_x_multicall", Spec{Space: "special", Proto: p.Name, Opt: oo, Special: name, Pos: pos, Rep: rep, N: n, Pre: pre})
+									}
+								}
+							}
+						}
+					}
+				}
+			}
+		}
+		// ---- bodies that cross 1 MiB by repetition (>= 2 non-empty chunks, unique lines): a chunk must not change
+		//      after hand-over, no two handed-over chunks may share a backing array ---------------------------------
+		{
+			tri3 := []int{0, 1, 3 % len(ls)}
+			if p == ir.Influx {
+				tri3 = []int{0, 1, 2}
+			}
+			if p == ir.DatadogLogs {
+				tri3 = []int{2, 4, 7}
+			}
+			rs := renderings(p, maxLabels(p, tri3), false)
+			if !thorough {
+				rs = rs[:1]
+				if p == ir.LokiJSON {
+					rs = []ir.Opt{{Layout: 0}, {Layout: 1}}
+				}
+			}
+			for _, o := range rs {
+				if strings.Contains(p.Kinds, "l") {
+					send("chunks_by_repetition", Spec{Space: "count", Proto: p.Name, Opt: o, Labels: tri3, Counts: []int{1400, 1400, 600}, LineLen: 400})
+				}
+				if strings.Contains(p.Kinds, "m") && p != ir.LokiJSON {
+					mt := tri3
+					if p == ir.Influx {
+						mt = []int{6, 7, 8}
+					}
+					send("chunks_by_repetition", Spec{Space: "count", Proto: p.Name, Opt: o, Labels: mt, Counts: []int{22000, 22000, 3000}})
+				}
+			}
+		}
 		// ---- small space ------------------------------------------------------------------------------
 		// (A1) one stream: every label set x every entry list (0..2 entries, every variant) x every rendering
 		for li := range ls {
@@ -881,6 +1070,12 @@ func main() {
 		"an entry that carries a line and a number (Loki JSON only) is stored with type 0, as model.SAMPLE_TYPE_UNDEF documents",
 		"parsers are driven with a fingerprint cache that has seen nothing; TTL columns and series rows are only checked for rectangularity here",
 	}
+	var err error
+	if specialLabelNames, specialContexts, err = ir.SpecialNames(ev.Repo()); err != nil {
+		ev.Fatal("cannot collect the special label names from the decoder sources: %v", err)
+	}
+	r.Extra["special_label_names_collected_from_source"] = specialLabelNames
+	r.Extra["context_values_collected_from_source"] = specialContexts
 	if r.Replay != "" {
 		replay(r)
 		return
